@@ -37,15 +37,15 @@ def issuedValue (d : Text) (u : UserId) (tl : List Text) (clock : Nat) : Text :=
   wire d clock (encodeUserid u).2 (List.intercalate [','] tl) (userIdTypePrefix ++ (encodeUserid u).1)
 
 /-- everything a successful `remember` did -/
-theorem remember_ok_inv {env : Env} {cfg : Cfg} {req : Req} {st st' : St} {u : UserId} {ma : Option Nat}
+theorem remember_ok_inv {env : Env} {cfg : Cfg} {req : Req} {st st' : St} {internal : Bool} {u : UserId} {ma : Option Nat}
     {toks : List Tok} {cs : List SetCookie}
-    (h : remember env cfg req st u ma toks = (.ok cs, st')) :
+    (h : remember env cfg req st internal u ma toks = (.ok cs, st')) :
     ∃ tl d, checkTokens toks = .ok tl ∧
       calcDigest env (remoteAddr cfg req) req.clock cfg.secret (encodeUserid u).2 (List.intercalate [','] tl)
         (userIdTypePrefix ++ (encodeUserid u).1) = .ok d ∧
       (issuedValue d u tl req.clock).length ≤ 4093 ∧
       cs = [ticketCookie cfg req (issuedValue d u tl req.clock) ma] ∧
-      st' = (if st.reissued then { st with revoked := true } else st) := by
+      st' = (if internal then st else { st with revoked := true }) := by
   unfold remember at h
   simp only at h
   cases hct : checkTokens toks with
@@ -178,7 +178,7 @@ theorem identify_issued_reissue (env : Env) (hH : env.H.WellSized) (cfg : Cfg) (
     omega
   have hfilter : (splitAll ',' (issuedFields u tl clock).tokens).filter (!·.isEmpty) = tl := by
     simp only [issuedFields, splitAll_joined tl htl1, tokensBack_filter tl htl1]
-  have hrem : remember env cfg req st (normUid u) cfg.maxAge
+  have hrem : remember env cfg req st true (normUid u) cfg.maxAge
       (((splitAll ',' (issuedFields u tl clock).tokens).filter (!·.isEmpty)).map .str) =
       (.ok [ticketCookie cfg req (issuedValue d2 u tl req.clock) cfg.maxAge], st) := by
     rw [hfilter]
@@ -188,7 +188,7 @@ theorem identify_issued_reissue (env : Env) (hH : env.H.WellSized) (cfg : Cfg) (
     have hnot : ¬ ((wire d2 req.clock (encodeUserid u).2 (List.intercalate [','] tl)
         (userIdTypePrefix ++ (encodeUserid u).1)).length > 4093) := by
       simp only [issuedValue] at hlen2; omega
-    simp [getCookies, hnot, hnr, ticketCookie, issuedValue, pure, Except.pure]
+    simp [getCookies, hnot, ticketCookie, issuedValue, pure, Except.pure]
     exact ⟨rfl, rfl⟩
   have := identify_reissue env cfg req st _ (issuedFields u tl clock) (normUid u) hc hp he
     (by simpa [issuedFields] using decodeLoop_issued env.U u) hr _ _ hrem
